@@ -360,7 +360,12 @@ class RateModel:
             if fn is None or dc in seen:
                 return
             seen.add(dc)
-            fl = Flow(fn, self.pkg.cls(dc).file)
+            # the constructor with the private helpers it delegates registrations to put back (`self._register_all(table)`)
+            try:
+                fn = self.pkg.expanded(dc, "__init__", keep=("register", "unregister"))
+            except AnalysisError:
+                pass
+            fl = Flow(fn, self.pkg.cls(dc).file, consts=self.module_consts(self.pkg.cls(dc).file))
             for f in fl.facts:
                 if f.kind != "call":
                     continue
